@@ -252,8 +252,10 @@ func serverHandler(f base.ServerFactory, conn net.Conn, info *pt.ServerInfo) {
 		return
 	}
 
-	// Connect to the orport.
-	orConn, err := pt.DialOr(info, conn.RemoteAddr().String(), name)
+	// Connect to the orport.  pt.DialOr() cannot be used: it type asserts the
+	// connection before looking at the error, and panics (taking the whole
+	// process down) when the ORPort can not be reached.
+	orConn, err := pt.DialOrWithDialer(&net.Dialer{}, info, conn.RemoteAddr().String(), name)
 	if err != nil {
 		log.Errorf("%s(%s) - failed to connect to ORPort: %s", name, addrStr, log.ElideError(err))
 		return
